@@ -158,6 +158,13 @@ class CodeBuilder:
         else:
             self.attrs_registry = {}
 
+    def _get_dialect_cache_name(self, kind: str) -> str:
+        # each specialization of a generic class has its own methods
+        name = f"__dialect_{self.format_name}_{kind}_cache"
+        if self.initial_type_args:
+            name += f"_{hash_type_args(self.initial_type_args)}"
+        return f"{name}__"
+
     def reset(self) -> None:
         self.lines.reset()
         self.globals = globals().copy()
@@ -352,9 +359,10 @@ class CodeBuilder:
     def _add_unpack_method_lines_lazy(self, method_name: str) -> None:
         if self.default_dialect is not None:
             self.add_type_modules(self.default_dialect)
+        self.ensure_object_imported(self.initial_type_args, "__type_args")
         self.add_line(
             f"CodeBuilder("
-            f"cls,"
+            f"cls,__type_args,"
             f"first_method='{method_name}',"
             f"allow_postponed_evaluation=False,"
             f"format_name='{self.format_name}',"
@@ -553,15 +561,16 @@ class CodeBuilder:
         unpacker_args = ", ".join(
             filter(None, ("cls", "d", self.get_unpack_method_flags()))
         )
-        cache_name = f"__dialect_{self.format_name}_unpacker_cache__"
+        cache_name = self._get_dialect_cache_name("unpacker")
         self.add_line(f"unpacker = cls.{cache_name}.get(dialect)")
         with self.indent("if unpacker is not None:"):
             self.add_line(f"return unpacker({unpacker_args})")
         if self.default_dialect:
             self.add_type_modules(self.default_dialect)
+        self.ensure_object_imported(self.initial_type_args, "__type_args")
         self.add_line(
             "CodeBuilder("
-            "cls,dialect=dialect,"
+            "cls,__type_args,dialect=dialect,"
             f"first_method='{method_name}',"
             f"format_name='{self.format_name}',"
             f"default_dialect={type_name(self.default_dialect)}"
@@ -581,7 +590,7 @@ class CodeBuilder:
         dialects_feature = self.is_code_generation_option_enabled(
             ADD_DIALECT_SUPPORT
         )
-        cache_name = f"__dialect_{self.format_name}_unpacker_cache__"
+        cache_name = self._get_dialect_cache_name("unpacker")
         if dialects_feature:
             with self.indent(f"if not '{cache_name}' in cls.__dict__:"):
                 self.add_line(f"cls.{cache_name} = {{}}")
@@ -822,9 +831,10 @@ class CodeBuilder:
     def _add_pack_method_lines_lazy(self, method_name: str) -> None:
         if self.default_dialect is not None:
             self.add_type_modules(self.default_dialect)
+        self.ensure_object_imported(self.initial_type_args, "__type_args")
         self.add_line(
             "CodeBuilder("
-            "self.__class__,"
+            "self.__class__,__type_args,"
             f"first_method='{method_name}',"
             "allow_postponed_evaluation=False,"
             f"format_name='{self.format_name}',"
@@ -1079,7 +1089,7 @@ class CodeBuilder:
         packer_args = ", ".join(
             filter(None, ("self", self.get_pack_method_flags()))
         )
-        cache_name = f"__dialect_{self.format_name}_packer_cache__"
+        cache_name = self._get_dialect_cache_name("packer")
         self.add_line(f"packer = self.__class__.{cache_name}.get(dialect)")
         self.add_line("if packer is not None:")
         if self.encoder is not None:
@@ -1090,9 +1100,10 @@ class CodeBuilder:
             self.add_line(return_statement.format(f"packer({packer_args})"))
         if self.default_dialect:
             self.add_type_modules(self.default_dialect)
+        self.ensure_object_imported(self.initial_type_args, "__type_args")
         self.add_line(
             "CodeBuilder("
-            "self.__class__,dialect=dialect,"
+            "self.__class__,__type_args,dialect=dialect,"
             f"first_method='{method_name}',"
             f"format_name='{self.format_name}',"
             f"default_dialect={type_name(self.default_dialect)}"
@@ -1137,7 +1148,7 @@ class CodeBuilder:
         dialects_feature = self.is_code_generation_option_enabled(
             ADD_DIALECT_SUPPORT
         )
-        cache_name = f"__dialect_{self.format_name}_packer_cache__"
+        cache_name = self._get_dialect_cache_name("packer")
         if dialects_feature:
             with self.indent(f"if not '{cache_name}' in cls.__dict__:"):
                 self.add_line(f"cls.{cache_name} = {{}}")
